@@ -337,8 +337,12 @@ def mon_inbound(tr):
     owed_op = -1
     markers = set()
     inbuf = b""
+    live = False
+    pending = []       # fed while no connection is up: handed to the next one
     for i, (op, lines) in enumerate(tr):
         f = op.split()
+        if f and f[0] == "brk":
+            pending, inbuf = [], b""
         if f and f[0] == "feed":
             for a in f[1:]:
                 if a in ("tmo", "err", "eof", "block"):
@@ -353,21 +357,25 @@ def mon_inbound(tr):
                         d = mq.parse(pk)
                     except Exception:
                         continue
-                    if d["name"] == "publish" and "topic" in d:
-                        fedq.append(d)
+                    if d["name"] == "publish" and "topic" in d and d["qos"] < 3:
+                        (fedq if live else pending).append(d)
         if f and f[0] in ("adopt",):
-            owed, fedq, inbuf = None, [], b""
+            owed, fedq, inbuf, live = None, [], b"", False
         for l in lines:
             p = l.split()
-            if l.startswith("ev dial"):
-                inbuf = b"" if not f or f[0] != "feed" else inbuf
+            if l.startswith("ev dial ok"):
+                live, fedq, pending = True, pending, []
+            elif l.startswith("ev close "):
+                live, fedq = False, []
+            elif l.startswith("rs err ") and not (l.split()[2] == "store" and any(x.startswith("ev savefail 1") for x in lines)):
+                live, fedq = False, []      # every other reader error takes the client offline
             if l.startswith("rs msg ") or l.startswith("rs big "):
                 topic = unhex(p[2])
-                match = None
-                for d in fedq:
-                    if d["topic"] == topic and (l.startswith("rs big") or d["payload"] == unhex(p[3])):
-                        match = d
-                        break
+                cands = [d for d in fedq
+                         if d["topic"] == topic and (len(d["payload"]) == int(p[3]) if l.startswith("rs big") else d["payload"] == unhex(p[3]))]
+                # several fed packets may look alike: prefer the reading under which the client is right
+                benign = [d for d in cands if not (d["qos"] == 2 and d["id"] in markers)]
+                match = benign[0] if benign else (cands[0] if cands else None)
                 if match is not None:
                     fedq = fedq[fedq.index(match) + 1:]
                     if match["qos"] == 1:
